@@ -278,6 +278,7 @@ impl<'a> AliasLexer<'a> {
             'ł' => 'ɬ',
             'ñ' => 'ɲ',
             'φ' => 'ɸ',
+            'ǝ' => 'ə',
             other => other,
         }
     }
